@@ -24,7 +24,8 @@ LEVEL_TEXT = ("handle_message(initialize) is executed for each supported version
               ' The supported list is snapshotted first, every list a public accessor returns is edited in place, and all answers are judged against the snapshot.'
               ' Every case also runs under the dependency-free validation backend.'
               ' An internal-error (-32603) answer to initialize counts as a crashed handler, not as a refusal.'
-              ' Also the version-less initialize in every envelope shape (params {}, null, absent).')
+              ' Also the version-less initialize in every envelope shape (params {}, null, absent).'
+              ' Also handshakes that overlap on one server object (different requested versions), and a version-less initialize with params empty, null or absent.')
 LEVEL_NOTE = ("Trusted: SUPPORTED_VERSIONS read from the library at run time defines 'supports'; the in-memory pump "
               "(write -> dump -> parse_message -> handler -> dump -> parse_message -> read).")
 RULE = ("case = requested protocolVersion value (direct) or (client supported list, preferred) (end-to-end). Non-trivial: "
